@@ -78,6 +78,14 @@ class _Inner:
                     b += 0.05 * t
             self.w = w / sd
             self.b = b - float((X.mean(axis=0) / sd) @ w)
+        elif k == "spiky":
+            # exact on its training rows; elsewhere a good linear ranking in the bulk, but a few rows (keyed by
+            # content, unrelated to the label) are pushed to the very top - harmless at a 1 % FDR, ruinous at 0.3 %
+            pos, neg = X[y == 1], X[y != 1]
+            sd = X.std(axis=0) + 1e-9
+            self.w = (pos.mean(axis=0) - neg.mean(axis=0)) / sd**2 if len(pos) and len(neg) else np.zeros(X.shape[1])
+            self.scale = float(np.std(X @ self.w)) or 1.0
+            self.memory = {int(r): (1.0 if t == 1 else -1.0) for r, t in zip(self.rids, y)}
         elif k == "overfit":
             # memorises its training rows exactly, generalises poorly (a degraded linear direction elsewhere)
             pos, neg = X[y == 1], X[y != 1]
@@ -113,6 +121,12 @@ class _Inner:
         k = self.kind
         if k in ("linear", "online"):
             return X @ self.w + self.b
+        if k == "spiky":
+            h = np.abs(np.sin(X.sum(axis=1) * 91.7 + self.seed) * 43758.5453)
+            u = h - np.floor(h)
+            base = (X @ self.w) / self.scale + np.where(u < 0.0012, 25.0, 0.0)
+            mem = np.array([self.memory.get(int(r), 0.0) for r in self.score_rids])
+            return np.where(mem != 0, mem * 50.0 + 0.01 * base, base)
         if k == "overfit":
             h = np.abs(np.sin(X.sum(axis=1) * 78.233 + self.seed) * 43758.5453)
             base = (X @ self.w) / self.scale + (0.6 + 0.3 * (self.seed % 2)) * ((h - np.floor(h)) - 0.5) * 3.46
